@@ -145,14 +145,12 @@ def real_signature(src):
 
 def real_compile(src):
     from nada_dsl.compile import compile_string
-    reset_globals()
+    # no reset between programs: the process state left by earlier programs (accepted or rejected) must not matter
     try:
         with contextlib.redirect_stdout(io.StringIO()):
             mir = json.loads(compile_string(base64.b64encode(src.encode()).decode()).mir)
     except Exception as exc:  # pylint: disable=broad-except
         return {"reject": type(exc).__name__}
-    finally:
-        reset_globals()
     return {"parties": [p["name"] for p in mir["parties"]],
             "inputs": [[i["name"], i["party"], i["type"]] for i in mir["inputs"]],
             "outputs": [[o["name"], o["party"], o["type"]] for o in mir["outputs"]]}
@@ -297,6 +295,7 @@ def run(res, tier):
         cmds = gen_program(rng, rng.randint(1, size))
         ml = rng.choice([0, 0, 0, rng.randint(1, len(cmds))])
         progs.append((cmds, ml))
+    reset_globals()
     answers = core.driver([{"k": "sig", "cmds": c} for c, _ in progs])
     evals = both = nontrivial = 0
     dist = {"abs_reject": 0, "real_reject": 0, "both_accept": 0, "module_level": 0, "extras": 0}
